@@ -93,6 +93,13 @@ type AccessRec struct {
 var LogAccesses bool
 var accessLog []AccessRec
 
+func vcAt(vc []uint64, i int) uint64 {
+	if i < len(vc) {
+		return vc[i]
+	}
+	return 0
+}
+
 func access(site uint32, addr uintptr, write, isMap bool) {
 	t := curTask
 	if t == nil || addr == 0 {
@@ -107,12 +114,12 @@ func access(site uint32, addr uintptr, write, isMap bool) {
 		c = &cell{}
 		shadow[addr] = c
 	}
-	if c.wTask != 0 && c.wTask != t.id && c.wClock > t.vc[c.wTask] {
+	if c.wTask != 0 && c.wTask != t.id && c.wClock > vcAt(t.vc, c.wTask) {
 		report(Conflict{addr, c.wSite, c.wTask, true, site, t.id, write, isMap})
 	}
 	if write {
 		for u, r := range c.reads {
-			if u != t.id && r.clock > t.vc[u] {
+			if u != t.id && r.clock > vcAt(t.vc, u) {
 				report(Conflict{addr, r.site, u, false, site, t.id, true, isMap})
 			}
 		}
